@@ -131,6 +131,12 @@ func c11Check(c c11Case) fw.Outcome {
 			return fw.Failf(label, "Center() = %v, midpoint of the box is (%v,%v); object %s", got, cx, cy, obj.JSON())
 		}
 	}
+	if k := c.Spec.Kind; (k == "Point" || k == "PointZ" || k == "SimplePoint") && len(pts) == 1 {
+		// "the position itself for points": also where the midpoint expression would overflow
+		if got, want := obj.Center(), (geometry.Point{X: float64(pts[0].X), Y: float64(pts[0].Y)}); got != want {
+			return fw.Failf(label, "Center() = %v of a point at %v; object %s", got, want, obj.JSON())
+		}
+	}
 	// a position of an *empty* part (a one-position line inside a collection) that is out of
 	// range: whether it must make the collection invalid is left unasserted (DESIGN.md §7)
 	if allValid := c.Spec.allPositionsValid(); allValid == valid {
